@@ -322,6 +322,7 @@ class ModelCfg:
     max_params: int = 4
     max_inters: int = 6
     max_comps: int = 3
+    min_comps: int = 1
     depth: int = 3
     p_unused_inter: float = 0.25
     p_param_expr: float = 0.2
@@ -354,7 +355,7 @@ def gen_value(rng, cfg: ModelCfg):
 
 def gen_model(rng: random.Random, cfg: ModelCfg | None = None) -> GModel:
     cfg = cfg or ModelCfg()
-    ncomp = rng.randint(1, cfg.max_comps)
+    ncomp = rng.randint(min(cfg.min_comps, cfg.max_comps), cfg.max_comps)
     if cfg.force_comps:
         ncomp = max(2, ncomp)
     if ncomp == 1 and rng.random() < 0.6:
